@@ -65,6 +65,27 @@ func c13(args []string) error {
 				seqs[k] = randSeq(r, L, func(r *rand.Rand) byte { return "AC-"[r.Intn(3)] })
 			}
 		}
+		// more than a hundred distinct sequences, then copies of early ones: the group of an early representative keeps
+		// growing after the list of groups was reallocated
+		many := (i == g.n-2 || r.Intn(80) == 0) && g.n >= 10 && kind != 2 && !wide
+		if many {
+			nd := 101 + r.Intn(60)
+			nseq = nd + 5 + r.Intn(25)
+			L = 7
+			names = distinctNames(r, nseq)
+			seqs = make([]string, nseq)
+			for k := 0; k < nseq; k++ {
+				idx := k
+				if k >= nd || (k > 20 && r.Intn(12) == 0) {
+					idx = r.Intn(40) // a copy of an early sequence
+				}
+				b := make([]byte, L)
+				for j := range b {
+					b[j] = "ACGT"[(idx>>(2*uint(j)))&3]
+				}
+				seqs[k] = string(b)
+			}
+		}
 		if kind == 2 { // Compress: few column patterns, repeated
 			npat := 1 + r.Intn(3)
 			pats := make([][]byte, npat)
